@@ -73,6 +73,9 @@ impl ControlMessage {
         if let Some(first) = avp_and_err.first() {
             match first {
                 Ok(AVP::MessageType(_)) => (),
+                // A first AVP that is a Message Type AVP but does not decode (unknown
+                // code, truncated value) is reported with its own error below
+                Err(DecodeError::UnknownMessageType(_)) | Err(DecodeError::IncompleteAVP(0)) => (),
                 _ => return Err(vec![DecodeError::ControlMessageTypeNotFirst]),
             }
         }
